@@ -123,10 +123,10 @@ def run_batch(prop_id: str, seed: int, tier: str, indices: list[int], out_path: 
         if hangs >= 3:   # a hang is established; do not spend the batch's wall budget re-finding it
             break
         rs = mix(seed, prop_id, idx)
-        sc = prop.gen(rs, tier)
-        sc.update({"prop": prop_id, "seed": rs, "index": idx, "hashseed": hashseed, "verif_seed": seed})
         t_run = time.time()
         try:
+            sc = prop.gen(rs, tier)
+            sc.update({"prop": prop_id, "seed": rs, "index": idx, "hashseed": hashseed, "verif_seed": seed})
             res = prop.execute(zy, sc)
         except Exception as e:  # harness trouble, never a verdict
             import traceback
